@@ -41,7 +41,8 @@ class Contract:
                  no_return=False, props=(), ghost_asserts=None, notes="", assumed=False,
                  locals=None, ghost_modifies=(), decreases=None, loop_all=None, closure=None,
                  waive=(), havoc_stmts=(), dyn_call_ghost=None, ghost_calls=(), exit_post=(),
-                 valid_schema=False, raise_post=(), rely=None, call_pre=None, start_at=None, coroutine=False, budget=1):
+                 valid_schema=False, raise_post=(), rely=None, call_pre=None, start_at=None, coroutine=False, budget=1,
+                 assumed_ensures=(), class_invariants=(), decreases_when=None):
         self.target = target
         self.requires = list(requires)
         self.ensures = list(ensures)
@@ -69,6 +70,14 @@ class Contract:
         self.ghost_calls = list(ghost_calls)   # ghost counters of calls to this function
         self.exit_post = list(exit_post)       # clauses over the locals, checked at every return
         self.valid_schema = valid_schema       # assume schema validity facts (A7) in this proof
+        self.decreases_when = decreases_when   # clause over the caller's entry parameters: the
+            # recursion variant is claimed only for recursive calls made when it holds
+        self.class_invariants = list(class_invariants)   # invariants of objects reachable from the
+            # arguments: assumed on entry AND at call sites (established by the constructor, kept
+            # by every writer - the writers are checked separately); reported as an assumption
+        self.assumed_ensures = list(assumed_ensures)   # clauses assumed at call sites but NOT proved
+                                                       # for the function (e.g. "the result is a
+                                                       # function of the arguments"); reported
         self.budget = budget   # multiplier of the solver resource budget for this function
         self.coroutine = coroutine   # an `async def` verified as one activation: every `await` is a
                                      # point where any value or any Exception comes back and every
